@@ -1,5 +1,6 @@
 import CoapVerif.Lemmas.StreamFeed
 import CoapVerif.Lemmas.StreamWs
+import CoapVerif.Lemmas.StreamWsSafe
 /-
 C05 — stream transports deliver the same messages however the byte stream is cut.
 
@@ -131,17 +132,34 @@ example : (feed 100 St.init [[0x0f, 0x01, 0x00], [0x01]]).1 = [⟨0, 1, 0, [], [
   M_ws = Coap.M.Ws.feed               (coap_ws_rd_http_header, coap_ws_read, WS branch of coap_read_session after the
                                        eight `fix:` commits; Model/WsReader.lean)
 
-FULL STATEMENT, NOT PROVED (tied only by the differential runs I = M_ws = S_ws, incl. every 1-, 2- and 3-cut
-placement of the frame part of short streams):
+PROVED (second part of this section): M_ws = S_ws for every chunk list —
 
-  theorem ws_reader_eq_spec (mode) (accept) (chunks : List Bytes) :
-      observation (Ws.feed mode accept {} chunks) = Ws.run (Ws.validator mode accept) mode chunks.flatten
-  and its corollary ws_reader_segmentation_invariant for all streams.
+  * frame phase, full strength (`ws_frames_eq_spec`, `ws_frames_segmentation_invariant`, `ws_frames_cut_invariant`,
+    `ws_frames_no_message_stuck`, `ws_frames_no_oob`): from every reader state of the invariant `WsInv` whose
+    handshake is done (in particular the state right after the handshake), for every list of chunks;
+  * whole connection incl. the HTTP upgrade (`ws_reader_eq_spec_partial`, `ws_reader_segmentation_invariant_partial`,
+    `ws_reader_cut_invariant_partial`, `ws_no_message_stuck_partial`, `ws_reader_no_oob_partial`): for every list of
+    chunks whose concatenation satisfies `hsCleanOf` — every complete handshake line is free of NUL bytes and no
+    accepted header line starts with its separator.  Outside that sub-domain M_ws and S_ws really differ
+    (`ws_blank_led_line_differs`: libcoap takes a header line that starts with a blank for the end of the header
+    block — design/C05.md "observations not acted on"; NUL: C strings, never generated), so the FULL STATEMENT
 
-What is missing is the invariant relating (http_hdr, rd_header, hdr_ofs, all_hdr_in, data_ofs, rx_data) to the
-position of S's parser for streams that contain line ends and frames.  Proved below: the handshake-line clause
-of the property for every segmentation of a stream whose first line has not ended (`_partial`: exactly the
-streams without LF), the one-step closing lemmas of M_ws in any state, and the closing clauses of S_ws. -/
+      theorem ws_reader_eq_spec (mode) (accept) (chunks : List Bytes) :
+          wsObs (Ws.feed mode accept {} chunks) = specObs (Ws.run (Ws.validator mode accept) mode chunks.flatten)
+
+    is false for the model as transcribed; the `_partial` theorems exclude exactly the header blocks with such a line;
+  * every byte stream, every chunk list, no hypothesis (`ws_reader_no_oob`, `ws_reader_final_state`;
+    Lemmas/StreamWsSafe.lean): the reader never leaves `http_hdr[160]` / `rd_header[14]`, never stalls with bytes
+    available, and an open session holds at most an unfinished header line or a proper prefix of one frame.
+
+Method (Lemmas/StreamWs{Defs,Hs,Frames,Session,Feed}.lean): the abstraction `Abs` = (phase, bytes consumed but not yet
+delivered), the invariant `WsInv mode st a` tying (http_hdr, seen_*, rd_header/hdr_ofs, all_hdr_in, mask_key, data_size,
+data_ofs, rx_data) to S's parser position `a`, "remaining work" step lemmas for coap_ws_rd_http_header
+(`rdHttpHeader_spec`), coap_ws_read (`readFrame_spec`, `readData_post`), coap_read_session (`readSession_spec`), the
+event loop on a chunk (`feedChunk_spec`) and induction over the chunk list (`feed_spec`).
+
+First part of the section (older, kept): the handshake-line clause for streams without LF, the one-step closing
+lemmas of M_ws in any state, and the closing clauses of S_ws. -/
 section Ws
 open Coap.M.Ws Coap.Spec.Stream.Ws
 
@@ -213,6 +231,216 @@ example : (Coap.M.Ws.feed .client [] { up := true } [[0x82], [3], [1], [1], [0xa
 /-- masked frame to the server side, payload cut in two (the former "payload in the caller's stack" defect) -/
 example : (Coap.M.Ws.feed .server [] { up := true } [[0x82, 0x83, 1, 2, 3, 4, 0], [3, 0xa9]]).1 =
     [⟨0, 1, 0, [0xaa], [], []⟩] := by decide
+
+
+/-! ### M_ws = S_ws for every segmentation -/
+
+/-- the reader state of a new session satisfies the invariant: handshake phase, nothing consumed -/
+theorem ws_init_inv (mode : Mode) : WsInv mode {} (.hs {} []) :=
+  ⟨⟨rfl, (fun _ h => nomatch h), (by decide), rfl, rfl, rfl⟩, rfl, rfl⟩
+
+/-- the reader state right after the handshake (nothing carried over) satisfies the invariant -/
+theorem ws_up_inv (mode : Mode) : WsInv mode { up := true } (.fr []) := Or.inl ⟨⟨rfl, rfl, rfl, rfl⟩, trivial⟩
+
+/-- (P1, frame phase, full strength) from every reader state `st` whose handshake is done and that satisfies the
+invariant with pending bytes `p` (header bytes in `rd_header`, or complete header ++ the payload bytes in
+`rx_data`): whatever way the following bytes are handed to the reader, the messages that reach coap_dispatch,
+their order and whether the session is closed are what RFC 6455 framing (S) yields on `p ++` the concatenated
+bytes; the reader never leaves its buffers (`oob`) and never stalls with bytes available (`stuck`). -/
+theorem ws_frames_eq_spec (mode : Mode) (accept : Bytes) (st : Coap.M.Ws.St) (p : Bytes) (hinv : WsInv mode st (.fr p))
+    (chunks : List Bytes) :
+    wsObs (Coap.M.Ws.feed mode accept st chunks) =
+      specObs ⟨(frames mode ((p ++ chunks.flatten).length + 1) (p ++ chunks.flatten)).1, true,
+               (frames mode ((p ++ chunks.flatten).length + 1) (p ++ chunks.flatten)).2⟩ :=
+  wsObs_of_post mode _ _ (feed_spec mode accept chunks st (.fr p) hinv trivial)
+
+/-- (the property, frame phase) two segmentations of the same bytes: same messages, same order, same end -/
+theorem ws_frames_segmentation_invariant (mode : Mode) (accept : Bytes) (st : Coap.M.Ws.St) (p : Bytes)
+    (hinv : WsInv mode st (.fr p)) (chunks₁ chunks₂ : List Bytes) (h : chunks₁.flatten = chunks₂.flatten) :
+    wsObs (Coap.M.Ws.feed mode accept st chunks₁) = wsObs (Coap.M.Ws.feed mode accept st chunks₂) := by
+  rw [ws_frames_eq_spec mode accept st p hinv, ws_frames_eq_spec mode accept st p hinv, h]
+
+/-- the same over cut placements, from the state right after the handshake -/
+theorem ws_frames_cut_invariant (mode : Mode) (accept : Bytes) (stream : Bytes) (cuts₁ cuts₂ : List Nat) :
+    wsObs (Coap.M.Ws.feed mode accept { up := true } (segment stream cuts₁)) =
+      wsObs (Coap.M.Ws.feed mode accept { up := true } (segment stream cuts₂)) :=
+  ws_frames_segmentation_invariant mode accept _ [] (ws_up_inv mode) _ _ (by rw [segment_flatten, segment_flatten])
+
+/-- no message is stuck (frame phase): when the session is open after the last chunk, the reader is not stalled,
+its state satisfies the invariant for some pending bytes `p'` in which S finds no message (a proper prefix of one
+frame), and everything S finds in the bytes received has been delivered -/
+theorem ws_frames_no_message_stuck (mode : Mode) (accept : Bytes) (st : Coap.M.Ws.St) (p : Bytes)
+    (hinv : WsInv mode st (.fr p)) (chunks : List Bytes) (st' : Coap.M.Ws.St)
+    (h : (Coap.M.Ws.feed mode accept st chunks).2.1 = .open st') :
+    (Coap.M.Ws.feed mode accept st chunks).2.2 = false ∧
+    (∃ p', WsInv mode st' (.fr p') ∧ frames mode (p'.length + 1) p' = ([], false)) ∧
+    frames mode ((p ++ chunks.flatten).length + 1) (p ++ chunks.flatten) = ((Coap.M.Ws.feed mode accept st chunks).1, false) := by
+  have hp := feed_spec mode accept chunks st (.fr p) hinv trivial
+  generalize Coap.M.Ws.feed mode accept st chunks = r at hp h
+  obtain ⟨ms, sess, stuck⟩ := r
+  simp only at h
+  subst h
+  simp only [FeedPost] at hp
+  obtain ⟨hst, ⟨a', hi⟩, hR⟩ := hp
+  have hup : st'.up = true := by
+    have := congrArg Res.up hR
+    simp only [specFrom, frRes] at this
+    exact this.symm
+  refine ⟨hst, ?_, ?_⟩
+  · cases a' with
+    | hs s l => have := hi.1.1; rw [hup] at this; cases this
+    | fr p' => exact ⟨p', hi, frOf_pend mode st' p' hi⟩
+  · have h1 := congrArg Res.msgs hR
+    have h2 := congrArg Res.closed hR
+    simp only [specFrom, frRes] at h1 h2
+    exact Prod.ext h1 h2
+
+/-- the reader never indexes `rd_header` at or beyond 14 and never reads a byte it has not written (frame phase) -/
+theorem ws_frames_no_oob (mode : Mode) (accept : Bytes) (st : Coap.M.Ws.St) (p : Bytes) (hinv : WsInv mode st (.fr p))
+    (chunks : List Bytes) : (wsObs (Coap.M.Ws.feed mode accept st chunks)).2 ≠ .oob ∧
+      (wsObs (Coap.M.Ws.feed mode accept st chunks)).2 ≠ .stuck := by
+  rw [ws_frames_eq_spec mode accept st p hinv]
+  simp only [specObs]
+  constructor <;> split <;> simp
+
+/-- (P1, whole connection) for every list of chunks whose concatenation has a plain header block (`hsCleanOf`:
+no NUL byte in a complete handshake line, no accepted header line starting with its separator): the messages,
+their order, `up` and closed-or-not are what S_ws computes from the concatenated bytes alone.
+FULL STATEMENT (without `hclean`) is false for the model: `ws_blank_led_line_differs`. -/
+theorem ws_reader_eq_spec_partial (mode : Mode) (accept : Bytes) (chunks : List Bytes)
+    (hclean : hsCleanOf mode accept {} chunks.flatten = true) :
+    wsObs (Coap.M.Ws.feed mode accept {} chunks) = specObs (run (validator mode accept) mode chunks.flatten) := by
+  rw [run_eq_hsRes, show (validator mode accept).init = ({} : Seen) from rfl]
+  have := feed_spec mode accept chunks {} (.hs {} []) (ws_init_inv mode) (by simpa [Clean] using hclean)
+  exact wsObs_of_post mode _ _ (by simpa [specFrom] using this)
+
+/-- (the property, whole connection) equal concatenation ⇒ equal observation -/
+theorem ws_reader_segmentation_invariant_partial (mode : Mode) (accept : Bytes) (chunks₁ chunks₂ : List Bytes)
+    (h : chunks₁.flatten = chunks₂.flatten) (hclean : hsCleanOf mode accept {} chunks₁.flatten = true) :
+    wsObs (Coap.M.Ws.feed mode accept {} chunks₁) = wsObs (Coap.M.Ws.feed mode accept {} chunks₂) := by
+  rw [ws_reader_eq_spec_partial mode accept chunks₁ hclean, ws_reader_eq_spec_partial mode accept chunks₂ (h ▸ hclean), h]
+
+/-- … over cut placements: for all streams with a plain header block and all ways of cutting them -/
+theorem ws_reader_cut_invariant_partial (mode : Mode) (accept : Bytes) (stream : Bytes) (cuts₁ cuts₂ : List Nat)
+    (hclean : hsCleanOf mode accept {} stream = true) :
+    wsObs (Coap.M.Ws.feed mode accept {} (segment stream cuts₁)) =
+      wsObs (Coap.M.Ws.feed mode accept {} (segment stream cuts₂)) :=
+  ws_reader_segmentation_invariant_partial mode accept _ _ (by rw [segment_flatten, segment_flatten])
+    (by rw [segment_flatten]; exact hclean)
+
+/-- no message is stuck (whole connection): open after the last chunk ⇒ not stalled, the state satisfies the
+invariant for a parser position `a` at which S finds nothing further, and S's result on the bytes received is
+exactly the messages delivered -/
+theorem ws_no_message_stuck_partial (mode : Mode) (accept : Bytes) (chunks : List Bytes)
+    (hclean : hsCleanOf mode accept {} chunks.flatten = true) (st' : Coap.M.Ws.St)
+    (h : (Coap.M.Ws.feed mode accept {} chunks).2.1 = .open st') :
+    (Coap.M.Ws.feed mode accept {} chunks).2.2 = false ∧
+    (∃ a, WsInv mode st' a ∧ specFrom mode accept a [] = ⟨[], st'.up, false⟩) ∧
+    run (validator mode accept) mode chunks.flatten = ⟨(Coap.M.Ws.feed mode accept {} chunks).1, st'.up, false⟩ := by
+  have hp := feed_spec mode accept chunks {} (.hs {} []) (ws_init_inv mode) (by simpa [Clean] using hclean)
+  rw [run_eq_hsRes, show (validator mode accept).init = ({} : Seen) from rfl]
+  generalize Coap.M.Ws.feed mode accept {} chunks = r at hp h
+  obtain ⟨ms, sess, stuck⟩ := r
+  simp only at h
+  subst h
+  simp only [FeedPost] at hp
+  obtain ⟨hst, ⟨a', hi⟩, hR⟩ := hp
+  exact ⟨hst, ⟨a', hi, specFrom_pend mode accept st' a' hi⟩, by simpa [specFrom] using hR⟩
+
+/-- no index ≥ 160 into `http_hdr`, none ≥ 14 into `rd_header`, no read of an unwritten byte, no stall -/
+theorem ws_reader_no_oob_partial (mode : Mode) (accept : Bytes) (chunks : List Bytes)
+    (hclean : hsCleanOf mode accept {} chunks.flatten = true) :
+    (wsObs (Coap.M.Ws.feed mode accept {} chunks)).2 ≠ .oob ∧ (wsObs (Coap.M.Ws.feed mode accept {} chunks)).2 ≠ .stuck := by
+  rw [ws_reader_eq_spec_partial mode accept chunks hclean]
+  simp only [specObs]
+  constructor <;> split <;> simp
+
+/-- (full strength, no hypothesis on the bytes) for EVERY byte stream and every segmentation the reader stays
+inside its buffers — no index ≥ 160 into `http_hdr`, none ≥ 14 into `rd_header`, the bytes carried over after the
+empty line fit `rd_header`, no byte read that was not written — and never stalls with bytes available (every
+`coap_read_session` call consumes at least one byte or closes); also for header blocks outside `hsCleanOf` -/
+theorem ws_reader_no_oob (mode : Mode) (accept : Bytes) (chunks : List Bytes) :
+    (wsObs (Coap.M.Ws.feed mode accept {} chunks)).2 ≠ .oob ∧ (wsObs (Coap.M.Ws.feed mode accept {} chunks)).2 ≠ .stuck := by
+  have := feed_safe mode accept chunks {} (Or.inl ⟨rfl, rfl, by decide, rfl, rfl, rfl⟩)
+  generalize Coap.M.Ws.feed mode accept {} chunks = r at this
+  obtain ⟨ms, sess, stuck⟩ := r
+  cases sess with
+  | oob => exact this.elim
+  | closed => simp [wsObs]
+  | «open» st' =>
+    obtain ⟨_, hst⟩ := this
+    subst hst
+    simp [wsObs]
+
+/-- (full strength) no message is held back, for EVERY byte stream: when the session is open after the last chunk
+the reader is either still in the handshake (line buffer below its capacity, `strchr` finds no LF in it) or at a
+frame-parser position `p` of S — a proper prefix of one frame, in which S finds no message -/
+theorem ws_reader_final_state (mode : Mode) (accept : Bytes) (chunks : List Bytes) (st' : Coap.M.Ws.St)
+    (h : (Coap.M.Ws.feed mode accept {} chunks).2.1 = .open st') :
+    (st'.up = false ∧ lfIdx st'.httpHdr = none ∧ st'.httpHdr.length < httpCap) ∨
+    ∃ p, WsInv mode st' (.fr p) ∧ wsAbs st' = .fr p ∧ frames mode (p.length + 1) p = ([], false) := by
+  have := feed_safe mode accept chunks {} (Or.inl ⟨rfl, rfl, by decide, rfl, rfl, rfl⟩)
+  generalize Coap.M.Ws.feed mode accept {} chunks = r at this h
+  obtain ⟨ms, sess, stuck⟩ := r
+  simp only at h
+  subst h
+  rcases this.1 with hs | ⟨p, hfr⟩
+  · exact Or.inl ⟨hs.1, hs.2.1, by have := hs.2.2.1; simp only [httpCap] at *; omega⟩
+  · exact Or.inr ⟨p, hfr, wsAbs_of_inv mode st' _ hfr, frOf_pend mode st' p hfr⟩
+
+/-! ### non-vacuity -/
+
+/-- a server-side connection: the upgrade request, a masked GET, a frame without data, a second masked GET -/
+def wsDemo : Bytes :=
+  asc "GET /.well-known/coap HTTP/1.1\r\nHost: x\r\nUpgrade: websocket\r\nConnection: Upgrade\r\nSec-WebSocket-Key: AAECAwQFBgcICQoLDA0ODw==\r\nSec-WebSocket-Protocol: coap\r\nSec-WebSocket-Version: 13\r\n\r\n" ++
+  [0x82, 0x82, 1, 2, 3, 4, 1, 3,  0x82, 0x80, 9, 9, 9, 9,  0x82, 0x83, 1, 2, 3, 4, 1, 3, 0xb3]
+
+/-- the hypothesis of the `_partial` theorems holds for it -/
+example : hsCleanOf .server [] {} wsDemo = true := by decide +kernel
+/-- S: two messages, session up and open -/
+example : specObs (run (validator .server []) .server wsDemo) =
+    ([⟨0, 1, 0, [], [], []⟩, ⟨0, 1, 0, [], [(11, [])], []⟩], .open true) := by decide +kernel
+/-- M, two different cut lists: inside the first line (5) / the key line (105) / between CR and LF of the empty line
+(185) / at the end of the block / in the mask key / in the payload / at a frame boundary / in the next mask key;
+and 14-byte reads that carry frame bytes over from the line buffer -/
+example : wsObs (Coap.M.Ws.feed .server [] {} (segment wsDemo [5, 100, 80, 1, 4, 3, 1, 9])) =
+    ([⟨0, 1, 0, [], [], []⟩, ⟨0, 1, 0, [], [(11, [])], []⟩], .open true) := by decide +kernel
+example : wsObs (Coap.M.Ws.feed .server [] {} (segment wsDemo [180, 2])) =
+    ([⟨0, 1, 0, [], [], []⟩, ⟨0, 1, 0, [], [(11, [])], []⟩], .open true) := by decide +kernel
+/-- the stream ends inside the payload of the last frame: one message delivered, session open, and the reader holds
+exactly the bytes of the unfinished frame (`wsAbs`), under two cut lists (one byte of payload in `rd_header` / in
+`rx_data` only) -/
+example : wsObs (Coap.M.Ws.feed .server [] {} (segment (wsDemo.take (wsDemo.length - 1)) [5, 100, 80, 1, 4, 3, 1, 9])) =
+    ([⟨0, 1, 0, [], [], []⟩], .open true) := by decide +kernel
+example : (match (Coap.M.Ws.feed .server [] {} (segment (wsDemo.take (wsDemo.length - 1)) [180, 2])).2.1 with
+    | .open st => wsAbs st | _ => .hs {} []) = .fr [0x82, 0x83, 1, 2, 3, 4, 1, 3] := by decide +kernel
+example : (match (Coap.M.Ws.feed .server [] {} (segment (wsDemo.take (wsDemo.length - 1)) [5, 100, 80, 1, 4, 3, 1, 9, 4])).2.1 with
+    | .open st => wsAbs st | _ => .hs {} []) = .fr [0x82, 0x83, 1, 2, 3, 4, 1, 3] := by decide +kernel
+/-- the sub-domain excluded by `hsCleanOf` is one where M_ws and S_ws really differ: a header line that starts
+with a blank is taken by libcoap for the end of the header block (here: refused, headers missing), by S for an
+ordinary header line (block not finished) -/
+theorem ws_blank_led_line_differs :
+    wsObs (Coap.M.Ws.feed .server [] {} [asc "GET /.well-known/coap HTTP/1.1\r\n x\r\n"]) = ([], .closed) ∧
+    specObs (run (validator .server []) .server (asc "GET /.well-known/coap HTTP/1.1\r\n x\r\n")) = ([], .open false) ∧
+    hsCleanOf .server [] {} (asc "GET /.well-known/coap HTTP/1.1\r\n x\r\n") = false := by decide +kernel
+/-- … and there the reader still stays inside its buffers (`ws_reader_no_oob` needs no hypothesis) -/
+example : (wsObs (Coap.M.Ws.feed .server [] {} (segment (asc "GET /.well-known/coap HTTP/1.1\r\n x\r\n") [3, 20]))).2 ≠ .oob :=
+  (ws_reader_no_oob _ _ _).1
+/-- frame phase, client side: 16-bit length form, three frames, cut in the extended length / after the header /
+one byte per read — and 17 frames without data in front of a message (the model's former fuel bound) -/
+example : wsObs (Coap.M.Ws.feed .client [] { up := true } (segment [0x82, 0x7e, 0, 3, 1, 1, 0xaa, 0x82, 0, 0x82, 2, 0, 2] [3, 1, 5])) =
+    ([⟨0, 1, 0, [0xaa], [], []⟩, ⟨0, 2, 0, [], [], []⟩], .open true) := by decide
+example : wsObs (Coap.M.Ws.feed .client [] { up := true } (segment [0x82, 0x7e, 0, 3, 1, 1, 0xaa, 0x82, 0, 0x82, 2, 0, 2] [1,1,1,1,1,1,1,1,1,1,1,1])) =
+    ([⟨0, 1, 0, [0xaa], [], []⟩, ⟨0, 2, 0, [], [], []⟩], .open true) := by decide
+example : wsObs (Coap.M.Ws.feed .client [] { up := true }
+      [(List.replicate 17 [0x82, 0]).flatten ++ [0x82, 2, 0, 1]]) = ([⟨0, 1, 0, [], [], []⟩], .open true) := by decide +kernel
+/-- an oversize frame closes under both segmentations; a pending frame prefix leaves the session open -/
+example : wsObs (Coap.M.Ws.feed .client [] { up := true } (segment [0x82, 0x7e, 0x05, 0xc1, 0, 1] [2, 1])) = ([], .closed) := by decide
+example : wsObs (Coap.M.Ws.feed .client [] { up := true } (segment [0x82, 0x7e, 0x05, 0xc1, 0, 1] [1, 1, 1])) = ([], .closed) := by decide
+/-- the invariant is satisfiable in its payload clause: header `82 03` complete, one payload byte in rx_data -/
+example : WsInv .client { up := true, rdHeader := [0x82, 3, 7], allHdrIn := true, dataSize := 3, dataOfs := 1, rxData := some [7] }
+    (.fr [0x82, 3, 7]) :=
+  Or.inr ⟨rfl, rfl, 0x82, 3, [], [7], by decide⟩
 
 end Ws
 
